@@ -4,6 +4,12 @@ technique strings and the not_applicable list stay in one place)."""
 import json, subprocess
 claimed = {
  # id: (technique, text, note, design_ref)
+ "C01": ("must-facts (dominating branch conditions) on the skip decision, edge facts on the dependency accumulator, value slicing for stamp dependence and directory hashing, dominance for record ordering and generator linking (go/ssa)",
+         "Decides that the skip decision cannot ignore any of its four inputs, that a dependency counts as up to date only with a record, no change and equal stamp, that the stamp handed to dependents depends on dependency stamps (found and fixed F8), that directory sums cover names in sorted order (found and fixed F6), that a function target is up to date only with unchanged environment and existing outputs, that generators are linked on every full load, and that records are written only after a successful body.",
+         "Trusts go/ssa; the skeleton of (*runTarget).Evaluate is recognised by role (interface invokes, fields), other shapes are reported undecided. Equality of outputs with a clean build for a given history is behavioural and not decided."),
+ "C03": ("dominance/must-facts for temp-file+rename ordering, who-may-write table over path-derivation slices, literal-field extraction of the records written, fallback analysis of the index load (go/ssa)",
+         "Decides atomic replacement of records (CreateTemp in the state tree -> encode -> close -> rename onto the label-derived path, each on the nil-error edge), the closed set of writers of the build-state directory, failure records with Rerun and without stamp, success records only after the body, index load fallback and index write optionality, and that build/watch/Reload never load from the index.",
+         "Trusts go/ssa, rename atomicity within one file system (process-death crash model, no fsync). Convergence after recovery is not decided."),
  "C04": ("lock-set dataflow + dominance + who-may-call over go/ssa",
          "Decides, on every path of runner.go, the lock/ownership structure that at-most-once execution and correct result hand-off need: guarded-by on target.status/err, atomic check-then-set in start, single spawn site, LoadOrStore-only identity map, same-index result wiring after wait(), wait-loop and wake-up discipline, Run returns the requested target's wait(). A necessary condition, not a schedule exploration.",
          "Trusts go/types+go/ssa, sync.Mutex/Cond/Map semantics. Does not decide the behaviour under all interleavings as such."),
@@ -22,6 +28,9 @@ claimed = {
  "C09": ("pairing on all paths + lock-set + dominance over go/ssa",
          "Decides slot pairing on every exit (enter/defer exit in run, exit/defer enter in EvaluateTargets, no other mover), capacity only under gate.m with the zero test, Wait and decrement in one critical section, +1/-1 deltas, Signal after increment, work inside a slot, waiting outside, limit = runtime.NumCPU().",
          "Trusts go/ssa and Mutex/Cond semantics; the instantaneous bound follows from these but is not observed."),
+ "C13": ("effect confinement: must-facts on the dry-run flag for every effectful call site, mutator reachability through the static in-module closure of the up-to-date checks, constant-result check of evaluate implementations",
+         "Decides that the body and every record write are on the not-dry-run edge, that the checks that run in dry runs reach no file-system/process mutator, that the dry branch marks changed+succeeded as every real successful evaluation does, that the flag is assigned on every path of RunOptions.apply, and that evaluating is reported before the dry-run test independent of it.",
+         "Trusts go/ssa and the mutator table. Effects of user Starlark code are confined by skipping the body, which is what is checked."),
  "C15": ("panic-site typing over the static call closure of Decode, recover-handler typestate, loop-progress classification, non-nil push sources, guard-interval bounds lint on record consumers (go/ssa)",
          "Decides that every explicit panic reachable from Decode carries an error, that Decode/Encode install (first thing, unconditionally) a handler converting every error-valued panic including runtime.Error into the named result, that each decoder loop consumes input or has a bounded induction variable, that pushed/returned values are non-nil, and that the record consumers outside the recover scope have no unguarded len(x)-k/constant index, unchecked assertion or reachable panic (found and fixed F9).",
          "Trusts go/ssa and go.starlark.net; memory exhaustion and 32-bit length overflow are outside the property. Crash-freedom for all byte strings is not itself proven."),
@@ -31,6 +40,9 @@ claimed = {
  "C17": ("extraction of the glob->regexp translation table and emission skeleton from go/ssa (path enumeration over one loop iteration), then structural checks with regexp/syntax on the extracted constants",
          "Decides, without executing CompileGlobs: unescaped echo only for non-metacharacters, backslash-escape only for punctuation, the fragments for * ** ? and the escape rules (incl. bytes consumed), and that the skeleton for 1..3 patterns parses to begin-text·alternatives·end-text (found and fixed F3); callers use MatchString only.",
          "Trusts go/ssa and Go's regexp engine/parser; recognises the strings.Builder emission idiom (other idioms are reported undecided); paths contain no newline; [ ] pass-through frozen as outside the property's wording."),
+ "C18": ("typestate dataflow over the CFG of (*runTarget).Evaluate, who-may-emit rules, dominance for run-done and flush",
+         "Decides on every path the event protocol of one evaluation (up-to-date | evaluating·succeeded | evaluating·failed | failed | silent only when a dependency failed), body only between evaluating and the terminal event, success never on an error edge, target events only from Evaluate, run-done exactly once after the runner with the returned error, flush deferred first in evaluate.",
+         "Trusts go/ssa. Line reassembly for all chunkings and cross-target interleaving are behavioural and not decided."),
  "C20": ("lock-set + dominance/must-facts over go/ssa",
          "Decides guarded-by on cache.entries, re-check of the same key under the write lock before the call with no unlock through to the update, update only on the nil-error edge with the call's value, hits return the stored value.",
          "Trusts go/ssa and sync.RWMutex semantics."),
